@@ -406,9 +406,21 @@ inductive RunOpt where
   | chain (n : Nat)              -- rest.WithChain(chain.New(c1 … cn)): `svr.ngin.chain = chn` (replaces the native chain)
   | cors                         -- rest.WithCors(): `SetNotAllowedHandler(cors.NotAllowedHandler(...))`, then the router is
                                  -- wrapped: `corsRouter.ServeHTTP` answers EVERY `OPTIONS` request itself (204)
+  | corsHeaders                  -- rest.WithCorsHeaders(headers...): the same wiring, another header function
+  | customCors                   -- rest.WithCustomCors(middlewareFn, notAllowedFn, origin...): the same wiring again
+  | fileServer (dir : String) (names : List String)
+                                 -- rest.WithFileServer(dir, fs): the router is wrapped in a `fileServingRouter`; `names` = the
+                                 -- file names `fs.Open` accepts
   | router                       -- rest.WithRouter(router.NewRouter()): `server.router = router` (a FRESH patRouter:
                                  -- whatever an earlier option installed on the old router is gone, including the
                                  -- engine's not-found wrapper that `NewServer` puts in front of the user's options)
+  deriving Repr, DecidableEq
+
+/-- a router wrapper of rest/server.go (both embed the `httpx.Router` they wrap: `Handle` / `SetNotFoundHandler` /
+`SetNotAllowedHandler` pass through to the patRouter, only `ServeHTTP` is intercepted). -/
+inductive Wrapper where
+  | cors                                        -- `corsRouter`: `cors.Middleware(fn, origins...)` around `Router.ServeHTTP`
+  | files (dir : String) (names : List String)  -- `fileServingRouter`: `fileserver.Middleware(dir, fs)`
   deriving Repr, DecidableEq
 
 /-- `rest.Server{ngin, router}` as far as routing goes. -/
@@ -416,7 +428,7 @@ structure Server where
   router : PatRouter := {}
   groups : List Group := []      -- `engine.routes`, in `AddRoutes` order
   chain : Option Nat := none     -- `engine.chain` (`WithChain`): the number of middlewares of the custom chain
-  cors : Bool := false           -- `server.router` is a `corsRouter` around the patRouter (`WithCors`)
+  wrappers : List Wrapper := []  -- what `server.router` is wrapped in, OUTERMOST first (`WithCors*`, `WithFileServer`)
 
 /-- the handler `cors.NotAllowedHandler(nil, origins...)` (a reserved id): it answers 404 (204 for `OPTIONS`). -/
 def corsNA : H := 204404
@@ -424,9 +436,12 @@ def corsNA : H := 204404
 def Server.apply (s : Server) : RunOpt → Server
   | .notFound h => { s with router := { s.router with notFound := some (.engine h) } }
   | .notAllowed h => { s with router := { s.router with notAllowed := h } }
-  | .router => { s with router := {}, cors := false }
+  | .router => { s with router := {}, wrappers := [] }
   | .chain n => { s with chain := some n }
-  | .cors => { s with router := { s.router with notAllowed := some corsNA }, cors := true }
+  | .cors => { s with router := { s.router with notAllowed := some corsNA }, wrappers := .cors :: s.wrappers }
+  | .corsHeaders => { s with router := { s.router with notAllowed := some corsNA }, wrappers := .cors :: s.wrappers }
+  | .customCors => { s with router := { s.router with notAllowed := some corsNA }, wrappers := .cors :: s.wrappers }
+  | .fileServer dir names => { s with wrappers := .files dir names :: s.wrappers }
 
 /-- `rest.NewServer(c, opts...)`: `opts = append([]RunOption{WithNotFoundHandler(nil)}, opts...)`, applied in order. -/
 def newServer (opts : List RunOpt) : Server :=
@@ -491,12 +506,43 @@ def Server.start (s : Server) : Server × StartResult :=
 /-- who answers a request that reaches `server.router.ServeHTTP`. -/
 inductive SrvResponse where
   | preflight                    -- `corsRouter`: `cors.Middleware` wrote 204 for an `OPTIONS` request; the patRouter is NOT asked
+  | file (name : String)         -- `fileServingRouter`: `http.FileServer` served the file; the patRouter is NOT asked
   | router (r : Response)        -- the patRouter answers
   deriving Repr, DecidableEq
 
-/-- `server.router.ServeHTTP`: with `WithCors` the CORS middleware sits in front of the patRouter. -/
-def Server.serveHTTP (s : Server) (method path : String) : SrvResponse :=
-  if s.cors && method == "OPTIONS" then .preflight else .router (s.router.serveHTTP method path)
+/-- `strings.HasPrefix`. -/
+def hasPrefix (s pre : String) : Bool := pre.toList.isPrefixOf s.toList
+
+/-- `ensureTrailingSlash` of rest/internal/fileserver. -/
+def ensureTrailingSlash (dir : String) : String := if dir.toList.getLast? == some '/' then dir else dir ++ "/"
+
+/-- `http.FileSystem.Open` of the harness' file system: one leading '/' is ignored. -/
+def fileName (rem : String) : String := if hasPrefix rem "/" then String.ofList (rem.toList.drop 1) else rem
+
+/-- `r.URL.Path[len(dir/):]` -/
+def fileRem (dir path : String) : String := String.ofList (path.toList.drop (ensureTrailingSlash dir).length)
+
+/-- `createServeChecker`: `r.Method == http.MethodGet && strings.HasPrefix(r.URL.Path, dir/) && fileChecker(r.URL.Path[len(dir/):])`
+— on the RAW request path (nothing is cleaned here). -/
+def canServe (dir : String) (names : List String) (method path : String) : Option String :=
+  if method == "GET" && hasPrefix path (ensureTrailingSlash dir) && names.contains (fileName (fileRem dir path))
+  then some (fileName (fileRem dir path)) else none
+
+/-- the wrappers, outermost first, around the patRouter's `ServeHTTP`: each one either answers itself or passes the
+request on UNCHANGED. -/
+def wrapServe (pr : PatRouter) (method path : String) : List Wrapper → SrvResponse
+  | [] => .router (pr.serveHTTP method path)
+  | .cors :: ws => if method == "OPTIONS" then .preflight else wrapServe pr method path ws
+  | .files dir names :: ws =>
+    match canServe dir names method path with
+    | some f => .file f
+    | none => wrapServe pr method path ws
+
+/-- `server.router.ServeHTTP`. -/
+def Server.serveHTTP (s : Server) (method path : String) : SrvResponse := wrapServe s.router method path s.wrappers
+
+/-- a `corsRouter` is in effect. -/
+def Server.cors (s : Server) : Bool := s.wrappers.contains .cors
 
 /-- `rest.MustNewServer(c, opts...)`: `NewServer(c, opts...)` (the error branch — `c.SetUp()` failing — ends the process). -/
 def mustNewServer (opts : List RunOpt) : Server := newServer opts
@@ -533,12 +579,25 @@ def Layer.tag : Layer → String
   | .use k => "u" ++ toString k
   | .routeMw i => toString i
 
-/-- a request with the bearer token `auth` goes down the chain: the middlewares that ran (in order) and whether
-the route handler is reached (`false`: the Authorize handler answered 401). -/
-def runChain (auth : Option String) : List Layer → List String × Bool
-  | [] => ([], true)
-  | .auth a b :: rest => if tokenOk (some (a, b)) auth then runChain auth rest else ([], false)
-  | l :: rest => (l.tag :: (runChain auth rest).1, (runChain auth rest).2)
+/-- a user middleware that answers itself instead of calling `next` (harness convention: ids from 900 on). -/
+def Layer.stops : Layer → Bool
+  | .chainMw i => i ≥ 900
+  | .auth _ _ => false
+  | .use k => k ≥ 900
+  | .routeMw i => i ≥ 900
+
+/-- how the way down the chain ends. -/
+inductive ChainEnd where
+  | handler          -- the route handler is reached
+  | unauthorized     -- the Authorize handler answered 401
+  | stopped          -- a user middleware answered itself (did not call `next`)
+  deriving Repr, DecidableEq
+
+/-- a request with the bearer token `auth` goes down the chain: the middlewares that ran (in order) and how it ended. -/
+def runChain (auth : Option String) : List Layer → List String × ChainEnd
+  | [] => ([], .handler)
+  | .auth a b :: rest => if tokenOk (some (a, b)) auth then runChain auth rest else ([], .unauthorized)
+  | l :: rest => if l.stops then ([l.tag], .stopped) else (l.tag :: (runChain auth rest).1, (runChain auth rest).2)
 
 /-- a value stored in a `context.Context`. -/
 inductive CtxVal where
@@ -569,5 +628,79 @@ def handlerCtx (c : Ctx) (ps : Params) : Ctx :=
 
 /-- what `pathvar.Vars(r)` shows inside the route handler (`nil` and the empty map print alike). -/
 def delivered (c : Ctx) (ps : Params) : List (String × String) := ((handlerCtx c ps).vars).getD []
+
+/-! ### round 5c: the status of a not-found answer through `engine.notFoundHandler` -/
+
+/-- `response.HeaderOnceResponseWriter`: `wrote` = a status was written through it already; `WriteHeader(code)` is
+passed to the underlying writer only the first time.  The state after the call and the status that reached the
+underlying writer (if any). -/
+def headerOnceWrite (wrote : Bool) (code : Nat) : Bool × Option Nat := if wrote then (true, none) else (true, some code)
+
+/-- `engine.notFoundHandler(next)`: `cw := NewHeaderOnceResponseWriter(w); h.ServeHTTP(cw, r); cw.WriteHeader(404)`.
+`own` = the status the user's handler wrote through `cw` (`none`: it wrote nothing; net/http then defaults to 200),
+`returns` = the handler came back (did not panic / `runtime.Goexit`).  The status of the response. -/
+def engineNotFoundStatus (own : Option Nat) (returns : Bool) : Nat :=
+  match own with
+  | some c => c                                    -- the first WriteHeader wins, the forced 404 is dropped
+  | none => if returns then ((headerOnceWrite false 404).2).getD 200 else 200
+
+/-! ### round 5c: registration with the MUTATION visible (what the Go structures hold after a call, also a failing one) -/
+
+/-- get-or-create on one children map, in place: `f` returns the child after the call and the error (if any); a child
+created for an intermediate segment is stored even when the recursion below it fails. -/
+def updKidM (k : String) (f : Option Node → Node × Option AddErr) :
+    List (String × Node) → List (String × Node) × Option AddErr
+  | [] => ([(k, (f none).1)], (f none).2)
+  | (k', c) :: tl =>
+    if k' = k then ((k', (f (some c)).1) :: tl, (f (some c)).2)
+    else ((k', c) :: (updKidM k f tl).1, (updKidM k f tl).2)
+
+def updChildM (n : Node) (k : String) (f : Option Node → Node × Option AddErr) : Node × Option AddErr :=
+  if isVar k then (n.setVars (updKidM k f n.vars).1, (updKidM k f n.vars).2)
+  else (n.setLits (updKidM k f n.lits).1, (updKidM k f n.lits).2)
+
+/-- `add(nd, route, item)` as the Go code runs it: the node AFTER the call (pointer structure mutated in place) and the
+error.  `errDupItem` is detected before anything is written; `errDupSlash` may leave item-less nodes behind. -/
+def addM : List String → Node → H → Node × Option AddErr
+  | [], n, _ => (n, none)
+  | t :: rest, n, h =>
+    match rest with
+    | [] =>
+      if t = "" then (if n.item.isSome then (n, some .dupItem) else (n.setItem h, none))
+      else updChildM n t fun
+        | some c => if c.item.isSome then (c, some .dupItem) else (c.setItem h, none)
+        | none => (newNode (some h), none)
+    | _ :: _ =>
+      if t = "" then (n, some .dupSlash)
+      else updChildM n t fun oc => addM rest (oc.getD (newNode none)) h
+
+/-- `patRouter.Handle` as the Go code runs it: the router AFTER the call and the error.  The validations return
+before anything is touched; a missing method tree is created and stored BEFORE `tree.Add` runs (also when `Add` then
+fails); `Add` rejects a nil handler before touching the tree. -/
+def handleM (r : Router) (method path : String) (item : Option H) : Router × Option HandleErr :=
+  if !validMethod method then (r, some .invalidMethod)
+  else if !rooted path then (r, some .invalidPath)
+  else
+    let r1 : Router := if (r.trees.lookup method).isSome then r else { trees := r.trees ++ [(method, newNode none)] }
+    match item with
+    | none => (r1, some (.tree .emptyItem))
+    | some h =>
+      let res := addM (cleanToks path) ((r.trees.lookup method).getD (newNode none)) h
+      ({ trees := setTree method res.1 r1.trees }, res.2.map HandleErr.tree)
+
+/-- `Tree.Add(route, item)` with the mutation visible (raw strings: `errDupSlash` may leave item-less nodes behind). -/
+def treeAddM (root : Node) (route : String) (item : Option H) : Node × Option AddErr :=
+  if !rooted route then (root, some .notFromRoot) else
+  match item with
+  | none => (root, some .emptyItem)
+  | some h => addM (toksOf route) root h
+
+/-- `engine.bindRoutes` over the flattened list with the mutation visible: the router after the start-up attempt. -/
+def bindAllM (r : Router) : List Reg → Router × Option HandleErr
+  | [] => (r, none)
+  | (m, p, item) :: rest =>
+    match (handleM r m p item).2 with
+    | none => bindAllM (handleM r m p item).1 rest
+    | some e => ((handleM r m p item).1, some e)
 
 end GoZero.C09
